@@ -1,7 +1,12 @@
-(* Codec/PropValue_proofs.v — proofs about the PropertyValue codec model. *)
+(* Codec/PropValue_proofs.v — proofs about the PropertyValue codec model:
+   decoding never panics / never runs out of fuel / consumes within the input
+   (dec_top_good), and decode (encode v ++ rest) = v for every well-formed v
+   (roundtrip). *)
 From Coq Require Import Lia ZifyBool ZifyN ZifyNat.
 From NDB Require Import Base.Bytes Base.Bytes_proofs Codec.Utf8 Codec.PropValue.
 Open Scope N_scope.
+
+(* ---- p1 ---- *)
 
 Lemma len_nil {A} : len (@nil A) = 0. Proof. reflexivity. Qed.
 Lemma len_cons {A} (x : A) l : len (x :: l) = 1 + len l.
@@ -50,6 +55,8 @@ Lemma unle_le4 n : n < 4294967296 -> unle (le 4 n) = n.
 Proof. intros. rewrite unle_le. change (256 ^ N.of_nat 4) with 4294967296. now apply N.mod_small. Qed.
 Lemma unle_le8 n : n < two64 -> unle (le 8 n) = n.
 Proof. intros. rewrite unle_le. change (256 ^ N.of_nat 8) with two64. now apply N.mod_small. Qed.
+
+(* ---- p2 ---- *)
 
 Definition good (b : bytes) (r : res (pv * N)) : Prop :=
   r <> Panic /\ r <> NoFuel /\ forall v c, r = Ok (v, c) -> 1 <= c <= len b.
@@ -179,3 +186,325 @@ Qed.
 
 Theorem dec_top_good b : good b (dec_top b).
 Proof. apply dec_good. lia. Qed.
+
+(* ---- p3 ---- *)
+
+Lemma pv_ind2 (P : pv -> Prop) :
+  P PNull -> (forall b, P (PBool b)) -> (forall z, P (PInt z)) -> (forall x, P (PFloat x)) ->
+  (forall s, P (PStr s)) -> (forall z, P (PDateTime z)) -> (forall s, P (PBlob s)) ->
+  (forall l, Forall P l -> P (PList l)) ->
+  (forall m, Forall (fun kv => P (snd kv)) m -> P (PMap m)) ->
+  forall v, P v.
+Proof.
+  intros H0 H1 H2 H3 H4 H5 H6 H7 H8. fix IH 1. intros [ | b | z | x | s | z | s | l | m ].
+  - exact H0.
+  - apply H1.
+  - apply H2.
+  - apply H3.
+  - apply H4.
+  - apply H5.
+  - apply H6.
+  - apply H7. induction l as [|x l IHl]; constructor; [apply IH | exact IHl].
+  - apply H8. induction m as [|[k x] m IHm]; constructor; [apply IH | exact IHm].
+Qed.
+
+Ltac tags := cbv [pv_tag_null pv_tag_bool pv_tag_int pv_tag_float pv_tag_string pv_tag_datetime pv_tag_blob pv_tag_list pv_tag_map]; cbn [N.eqb Pos.eqb].
+
+Lemma len_ge_cons {A} (x : A) l : 1 <= len (x :: l). Proof. rewrite len_cons. lia. Qed.
+
+Lemma dec_i64_rt tag z mk rest : in_i64 z = true ->
+  dec_i64 (tag :: le 8 (u64_of_i64 z) ++ rest) mk = Ok (mk z, 9).
+Proof.
+  intros Hz. unfold dec_i64. rewrite len_cons, len_app, len_le.
+  destruct (1 + (N.of_nat 8 + len rest) <? 9) eqn:E; [lia|].
+  change (tag :: le 8 (u64_of_i64 z) ++ rest) with ([tag] ++ le 8 (u64_of_i64 z) ++ rest).
+  rewrite (sub_app [tag] (le 8 (u64_of_i64 z)) rest 1 8); [|reflexivity|now rewrite len_le].
+  rewrite unle_le8 by apply u64_of_i64_lt. now rewrite i64_u64_roundtrip.
+Qed.
+
+Lemma dec_lenpref_rt tag s rest k : len s < 4294967296 ->
+  dec_lenpref (tag :: le 4 (len s) ++ s ++ rest) k = k s (5 + len s).
+Proof.
+  intros Hs. unfold dec_lenpref. rewrite len_cons, !len_app, len_le.
+  destruct (1 + (N.of_nat 4 + (len s + len rest)) <? 5) eqn:E; [lia|].
+  change (tag :: le 4 (len s) ++ s ++ rest) with ([tag] ++ le 4 (len s) ++ s ++ rest).
+  rewrite (sub_app [tag] (le 4 (len s)) (s ++ rest) 1 4); [|reflexivity|now rewrite len_le].
+  rewrite unle_le4 by exact Hs. cbv zeta.
+  destruct (1 + (N.of_nat 4 + (len s + len rest)) <? 5 + len s) eqn:E2; [lia|].
+  change ([tag] ++ le 4 (len s) ++ s ++ rest) with ((tag :: le 4 (len s)) ++ s ++ rest).
+  rewrite (sub_app (tag :: le 4 (len s)) s rest); [reflexivity| |reflexivity].
+  rewrite len_cons, len_le. lia.
+Qed.
+
+(* the list loop over the encodings of wf items *)
+Lemma list_loop_rt rec (items : list pv) :
+  forall pre rest k acc,
+  (forall x r, In x items -> rec (encode x ++ r) = Ok (x, len (encode x))) ->
+  (length items <= k)%nat ->
+  list_loop rec k (len items) (pre ++ flat_map encode items ++ rest) (len pre) acc
+  = Ok (PList (rev acc ++ items), len pre + len (flat_map encode items)).
+Proof.
+  induction items as [|x items IH]; intros pre rest k acc Hrec Hk.
+  - cbn [list_loop flat_map app len length N.of_nat N.eqb]. destruct k; cbn; rewrite app_nil_r; f_equal; f_equal; lia.
+  - destruct k as [|k]; [cbn in Hk; lia|]. cbn [list_loop].
+    rewrite len_cons. destruct (1 + len items =? 0) eqn:E; [lia|].
+    rewrite from_app by reflexivity. cbn [flat_map]. rewrite <- app_assoc.
+    rewrite Hrec by (left; reflexivity).
+    replace (1 + len items - 1) with (len items) by lia.
+    specialize (IH (pre ++ encode x) rest k (x :: acc)).
+    rewrite <- app_assoc, len_app in IH. rewrite IH.
+    + cbn [rev]. rewrite <- app_assoc. cbn [app]. f_equal. f_equal. rewrite len_app. lia.
+    + intros; apply Hrec; right; assumption.
+    + cbn in Hk. lia.
+Qed.
+
+(* ---- p4 ---- *)
+
+Definition enc_entry (kv : bytes * pv) : bytes :=
+  match kv with (k, x) => le 4 (len k) ++ k ++ encode x end.
+
+Lemma encode_map m : encode (PMap m) = pv_tag_map :: le 4 (len m) ++ flat_map enc_entry m.
+Proof. reflexivity. Qed.
+
+Lemma encode_nonempty v : (1 <= length (encode v))%nat.
+Proof. destruct v; cbn [encode length]; lia. Qed.
+
+Lemma flat_map_encode_len (l : list pv) x : In x l -> (length (encode x) <= length (flat_map encode l))%nat.
+Proof.
+  induction l as [|y l IH]; [contradiction|]. cbn [flat_map]. rewrite app_length.
+  intros [->|H]; [lia|]. specialize (IH H). lia.
+Qed.
+Lemma flat_map_encode_count (l : list pv) : (length l <= length (flat_map encode l))%nat.
+Proof.
+  induction l as [|y l IH]; [cbn; lia|]. cbn [flat_map length]. rewrite app_length.
+  pose proof (encode_nonempty y). lia.
+Qed.
+Lemma flat_map_entry_len (m : list (bytes * pv)) kx : In kx m -> (length (encode (snd kx)) + 4 <= length (flat_map enc_entry m))%nat.
+Proof.
+  induction m as [|y m IH]; [contradiction|]. cbn [flat_map]. rewrite app_length.
+  intros [->|H].
+  - destruct kx as [k x]. cbn [enc_entry snd]. rewrite !app_length, le_length. lia.
+  - specialize (IH H). lia.
+Qed.
+Lemma flat_map_entry_count (m : list (bytes * pv)) : (length m <= length (flat_map enc_entry m))%nat.
+Proof.
+  induction m as [|[k x] m IH]; [cbn; lia|]. cbn [flat_map length enc_entry]. rewrite !app_length, le_length. lia.
+Qed.
+
+Lemma ss_head_lt l : forall k', strictly_sorted (k' :: l) = true -> forall k, In k l -> lex_cmp k' k = Lt.
+Proof.
+  induction l as [|a l IH]; intros k' Hs k Hin; [contradiction|].
+  cbn [strictly_sorted] in Hs. apply andb_prop in Hs as [H1 H2].
+  destruct (lex_cmp k' a) eqn:E; try discriminate.
+  destruct Hin as [->|Hin]; [exact E|].
+  apply (lex_lt_trans k' a k); [exact E|]. apply IH; assumption.
+Qed.
+Lemma ss_tail k l : strictly_sorted (k :: l) = true -> strictly_sorted l = true.
+Proof. cbn [strictly_sorted]. intros H. apply andb_prop in H as [_ H]. exact H. Qed.
+
+Lemma map_insert_last acc : forall k v t,
+  strictly_sorted (map fst (acc ++ (k, v) :: t)) = true -> map_insert k v acc = acc ++ [(k, v)].
+Proof.
+  induction acc as [|[k' v'] acc IH]; intros k v t Hs; [reflexivity|].
+  cbn [map_insert app]. cbn [app map fst] in Hs.
+  assert (Hlt : lex_cmp k' k = Lt).
+  { apply (ss_head_lt _ _ Hs). rewrite map_app. apply in_or_app. right. left. reflexivity. }
+  rewrite lex_cmp_antisym, Hlt. cbn [CompOpp]. f_equal. apply (IH k v t). apply (ss_tail _ _ Hs).
+Qed.
+
+Lemma map_loop_rt rec (m : list (bytes * pv)) :
+  forall pre rest k acc,
+  (forall kx r, In kx m -> rec (encode (snd kx) ++ r) = Ok (snd kx, len (encode (snd kx)))) ->
+  (forall kx, In kx m -> len (fst kx) < 4294967296 /\ utf8_valid (fst kx) = true) ->
+  strictly_sorted (map fst (acc ++ m)) = true ->
+  (length m <= k)%nat ->
+  map_loop rec k (len m) (pre ++ flat_map enc_entry m ++ rest) (len pre) acc
+  = Ok (PMap (acc ++ m), len pre + len (flat_map enc_entry m)).
+Proof.
+  induction m as [|[key x] m IH]; intros pre rest k acc Hrec Hkeys Hs Hk.
+  - cbn [map_loop flat_map app len length N.of_nat N.eqb]. destruct k; cbn; rewrite app_nil_r; f_equal; f_equal; lia.
+  - destruct k as [|k]; [cbn in Hk; lia|]. cbn [map_loop].
+    rewrite len_cons. destruct (1 + len m =? 0) eqn:E; [lia|].
+    cbn [flat_map enc_entry]. rewrite <- !app_assoc.
+    destruct (Hkeys (key, x) (or_introl eq_refl)) as [Hkl Hku]. cbn [fst] in Hkl, Hku.
+    set (tail := flat_map enc_entry m ++ rest).
+    assert (Hlen : len (pre ++ le 4 (len key) ++ key ++ encode x ++ tail) = len pre + 4 + len key + len (encode x) + len tail).
+    { rewrite !len_app, len_le. lia. }
+    rewrite Hlen.
+    destruct (len pre + 4 + len key + len (encode x) + len tail <? len pre + 4) eqn:E1; [lia|].
+    rewrite (sub_app pre (le 4 (len key)) (key ++ encode x ++ tail)); [|reflexivity|now rewrite len_le].
+    cbv zeta. rewrite unle_le4 by exact Hkl.
+    destruct (len pre + 4 + len key + len (encode x) + len tail <? len pre + 4 + len key) eqn:E2; [lia|].
+    replace (pre ++ le 4 (len key) ++ key ++ encode x ++ tail) with ((pre ++ le 4 (len key)) ++ key ++ encode x ++ tail)
+      by now rewrite <- app_assoc.
+    rewrite (sub_app (pre ++ le 4 (len key)) key (encode x ++ tail)); [|rewrite len_app, len_le; lia|reflexivity].
+    rewrite Hku. cbn [negb].
+    replace ((pre ++ le 4 (len key)) ++ key ++ encode x ++ tail) with ((pre ++ le 4 (len key) ++ key) ++ encode x ++ tail)
+      by now rewrite <- !app_assoc.
+    rewrite from_app by (rewrite !len_app, len_le; lia).
+    pose proof (Hrec (key, x) tail (or_introl eq_refl)) as Hx. cbn [snd] in Hx. rewrite Hx.
+    replace (1 + len m - 1) with (len m) by lia.
+    rewrite (map_insert_last acc key x m Hs).
+    set (pre' := (pre ++ le 4 (len key) ++ key) ++ encode x).
+    replace ((pre ++ le 4 (len key) ++ key) ++ encode x ++ tail) with (pre' ++ flat_map enc_entry m ++ rest)
+      by (unfold pre', tail; repeat rewrite <- app_assoc; reflexivity).
+    replace (len pre + 4 + len key + len (encode x)) with (len pre')
+      by (unfold pre'; rewrite !len_app, len_le; lia).
+    rewrite (IH pre' rest k (acc ++ [(key, x)])).
+    + rewrite <- app_assoc. cbn [app]. f_equal. f_equal. unfold pre'. rewrite !len_app, len_le. lia.
+    + intros; apply Hrec; right; assumption.
+    + intros; apply Hkeys; right; assumption.
+    + rewrite <- app_assoc. exact Hs.
+    + cbn in Hk. lia.
+Qed.
+
+(* ---- p5 ---- *)
+
+Ltac tagr := repeat match goal with |- context [N.eqb ?a ?b] =>
+   let r := eval vm_compute in (N.eqb a b) in
+   replace (N.eqb a b) with r by (vm_compute; reflexivity) end.
+
+Lemma dec_S_null f t : dec (S f) (pv_tag_null :: t) = Ok (PNull, 1).
+Proof. rewrite dec_S. tagr. reflexivity. Qed.
+Lemma dec_S_bool f t : dec (S f) (pv_tag_bool :: t) =
+  if len (pv_tag_bool :: t) <? 2 then Err EInvalidLength else
+  match nth_error (pv_tag_bool :: t) 1 with Some x => Ok (PBool (negb (x =? 0)), 2) | None => Panic end.
+Proof. rewrite dec_S. tagr. reflexivity. Qed.
+Lemma dec_S_int f t : dec (S f) (pv_tag_int :: t) = dec_i64 (pv_tag_int :: t) PInt.
+Proof. rewrite dec_S. tagr. reflexivity. Qed.
+Lemma dec_S_float f t : dec (S f) (pv_tag_float :: t) =
+  if len (pv_tag_float :: t) <? 9 then Err EInvalidLength else
+  match sub (pv_tag_float :: t) 1 8 with Some s => Ok (PFloat (unle s), 9) | None => Panic end.
+Proof. rewrite dec_S. tagr. reflexivity. Qed.
+Lemma dec_S_str f t : dec (S f) (pv_tag_string :: t) =
+  dec_lenpref (pv_tag_string :: t) (fun s c => if utf8_valid s then Ok (PStr s, c) else Err EInvalidUtf8).
+Proof. rewrite dec_S. tagr. reflexivity. Qed.
+Lemma dec_S_datetime f t : dec (S f) (pv_tag_datetime :: t) = dec_i64 (pv_tag_datetime :: t) PDateTime.
+Proof. rewrite dec_S. tagr. reflexivity. Qed.
+Lemma dec_S_blob f t : dec (S f) (pv_tag_blob :: t) = dec_lenpref (pv_tag_blob :: t) (fun s c => Ok (PBlob s, c)).
+Proof. rewrite dec_S. tagr. reflexivity. Qed.
+Lemma dec_S_list f t : dec (S f) (pv_tag_list :: t) =
+  if len (pv_tag_list :: t) <? 5 then Err EInvalidLength else
+  match sub (pv_tag_list :: t) 1 4 with
+  | None => Panic
+  | Some l4 => list_loop (dec f) (S f) (unle l4) (pv_tag_list :: t) 5 []
+  end.
+Proof. rewrite dec_S. tagr. reflexivity. Qed.
+Lemma dec_S_map f t : dec (S f) (pv_tag_map :: t) =
+  if len (pv_tag_map :: t) <? 5 then Err EInvalidLength else
+  match sub (pv_tag_map :: t) 1 4 with
+  | None => Panic
+  | Some l4 => map_loop (dec f) (S f) (unle l4) (pv_tag_map :: t) 5 []
+  end.
+Proof. rewrite dec_S. tagr. reflexivity. Qed.
+
+Lemma forallb_In {A} (f : A -> bool) l x : forallb f l = true -> In x l -> f x = true.
+Proof. intros H Hin. rewrite forallb_forall in H. auto. Qed.
+Lemma sub_cons1 t s r n : n = len s -> sub (t :: s ++ r) 1 n = Some s.
+Proof. intros. change (t :: s ++ r) with ([t] ++ s ++ r). now apply sub_app. Qed.
+
+Definition RT (v : pv) : Prop := wf v = true -> forall f rest,
+  (length (encode v) <= f)%nat -> dec (S f) (encode v ++ rest) = Ok (v, len (encode v)).
+
+Lemma rt_null : RT PNull.
+Proof. unfold RT. intros _ f rest Hf. apply dec_S_null. Qed.
+Lemma rt_bool b : RT (PBool b).
+Proof.
+  unfold RT. intros _ f rest Hf. cbn [encode app]. rewrite dec_S_bool. rewrite !len_cons.
+  destruct (1 + (1 + len rest) <? 2) eqn:E; [lia|]. cbn [nth_error]. destruct b; reflexivity.
+Qed.
+Lemma rt_int z : RT (PInt z).
+Proof.
+  unfold RT. intros Hwf f rest Hf. cbn [encode app]. rewrite dec_S_int, dec_i64_rt by exact Hwf.
+  rewrite len_cons, len_le. reflexivity.
+Qed.
+Lemma rt_datetime z : RT (PDateTime z).
+Proof.
+  unfold RT. intros Hwf f rest Hf. cbn [encode app]. rewrite dec_S_datetime, dec_i64_rt by exact Hwf.
+  rewrite len_cons, len_le. reflexivity.
+Qed.
+Lemma rt_float x : RT (PFloat x).
+Proof.
+  unfold RT. intros Hwf f rest Hf. cbn [encode app]. cbn [wf] in Hwf. rewrite dec_S_float.
+  rewrite len_cons, len_app, len_le.
+  destruct (1 + (N.of_nat 8 + len rest) <? 9) eqn:E; [lia|].
+  rewrite sub_cons1 by now rewrite len_le.
+  rewrite unle_le8 by lia. rewrite len_cons, len_le. reflexivity.
+Qed.
+Lemma rt_str s : RT (PStr s).
+Proof.
+  unfold RT. intros Hwf f rest Hf. cbn [encode app]. cbn [wf] in Hwf. apply andb_prop in Hwf as [H1 H2].
+  assert (Hs : len s < 4294967296) by (unfold two32' in H1; lia).
+  rewrite dec_S_str, <- app_assoc, (dec_lenpref_rt _ _ _ _ Hs), H2.
+  rewrite len_cons, len_app, len_le. f_equal. f_equal. lia.
+Qed.
+Lemma wf_blob_len s : wf (PBlob s) = true -> len s < 4294967296.
+Proof. cbn [wf]. unfold two32'. lia. Qed.
+Lemma wf_list_inv l : wf (PList l) = true -> len l < 4294967296 /\ forallb wf l = true.
+Proof. cbn [wf]. unfold two32'. intros H. apply andb_prop in H as [H1 H2]. split; [lia|exact H2]. Qed.
+Lemma wf_map_inv m : wf (PMap m) = true ->
+  len m < 4294967296 /\ strictly_sorted (map fst m) = true /\
+  forallb (fun kv => match kv with (k, x) => (len k <? two32') && utf8_valid k && wf x end) m = true.
+Proof.
+  cbn [wf]. unfold two32'. intros H. apply andb_prop in H as [H12 H3]. apply andb_prop in H12 as [H1 H2].
+  split; [lia|]. split; assumption.
+Qed.
+Lemma rt_blob s : RT (PBlob s).
+Proof.
+  unfold RT. intros Hwf f rest Hf. apply wf_blob_len in Hwf. cbn [encode app].
+  rewrite dec_S_blob, <- app_assoc, (dec_lenpref_rt _ _ _ _ Hwf).
+  rewrite len_cons, len_app, len_le. f_equal. f_equal. lia.
+Qed.
+Lemma rt_list l : Forall RT l -> RT (PList l).
+Proof.
+  unfold RT. intros H Hwf f rest Hf. apply wf_list_inv in Hwf as [Hl H2].
+  cbn [encode length] in Hf. rewrite app_length, le_length in Hf.
+  cbn [encode app]. rewrite dec_S_list, <- app_assoc.
+  rewrite len_cons, !len_app, len_le.
+  destruct (1 + (N.of_nat 4 + (len (flat_map encode l) + len rest)) <? 5) eqn:E; [lia|].
+  rewrite sub_cons1 by now rewrite len_le.
+  rewrite unle_le4 by exact Hl.
+  change (pv_tag_list :: le 4 (len l) ++ flat_map encode l ++ rest) with ((pv_tag_list :: le 4 (len l)) ++ flat_map encode l ++ rest).
+  replace 5 with (len (pv_tag_list :: le 4 (len l))) at 1 by (rewrite len_cons, len_le; reflexivity).
+  destruct f as [|f]; [lia|].
+  rewrite list_loop_rt.
+  - cbn [rev app]. f_equal. f_equal. rewrite !len_cons, !len_app, len_le. lia.
+  - intros x r Hin. rewrite Forall_forall in H. apply (H x Hin); [exact (forallb_In _ _ _ H2 Hin)|].
+    pose proof (flat_map_encode_len l x Hin). lia.
+  - pose proof (flat_map_encode_count l). lia.
+Qed.
+Lemma rt_map m : Forall (fun kv => RT (snd kv)) m -> RT (PMap m).
+Proof.
+  unfold RT. intros H Hwf f rest Hf. apply wf_map_inv in Hwf as (Hl & H2 & H3).
+  rewrite encode_map in *. cbn [length] in Hf. rewrite app_length, le_length in Hf.
+  cbn [app]. rewrite dec_S_map, <- app_assoc.
+  rewrite len_cons, !len_app, len_le.
+  destruct (1 + (N.of_nat 4 + (len (flat_map enc_entry m) + len rest)) <? 5) eqn:E; [lia|].
+  rewrite sub_cons1 by now rewrite len_le.
+  rewrite unle_le4 by exact Hl.
+  change (pv_tag_map :: le 4 (len m) ++ flat_map enc_entry m ++ rest) with ((pv_tag_map :: le 4 (len m)) ++ flat_map enc_entry m ++ rest).
+  replace 5 with (len (pv_tag_map :: le 4 (len m))) at 1 by (rewrite len_cons, len_le; reflexivity).
+  destruct f as [|f]; [lia|].
+  rewrite map_loop_rt.
+  - cbn [app]. f_equal. f_equal. rewrite !len_cons, !len_app, len_le. lia.
+  - intros kx r Hin. rewrite Forall_forall in H. pose proof (forallb_In _ _ _ H3 Hin) as Hk. destruct kx as [k x].
+    apply andb_prop in Hk as [_ Hx]. apply (H (k, x) Hin); [exact Hx|].
+    pose proof (flat_map_entry_len m (k, x) Hin). cbn [snd] in *. lia.
+  - intros kx Hin. pose proof (forallb_In _ _ _ H3 Hin) as Hk. destruct kx as [k x].
+    apply andb_prop in Hk as [Hk _]. apply andb_prop in Hk as [Ha Hb]. cbn [fst]. unfold two32' in Ha. split; [lia|exact Hb].
+  - cbn [app]. exact H2.
+  - pose proof (flat_map_entry_count m). lia.
+Qed.
+
+Lemma dec_encode : forall v, RT v.
+Proof.
+  apply pv_ind2; [exact rt_null|exact rt_bool|exact rt_int|exact rt_float|exact rt_str|exact rt_datetime|exact rt_blob|exact rt_list|exact rt_map].
+Qed.
+
+Theorem roundtrip v rest : wf v = true ->
+  dec_top (encode v ++ rest) = Ok (v, len (encode v)) /\ decode (encode v ++ rest) = Ok v.
+Proof.
+  intros Hwf. assert (H : dec_top (encode v ++ rest) = Ok (v, len (encode v))).
+  { unfold dec_top. apply dec_encode; [exact Hwf|]. rewrite app_length. lia. }
+  split; [exact H|]. unfold decode. now rewrite H.
+Qed.
